@@ -259,7 +259,7 @@ func TestC08(t *testing.T) {
 	}
 	t.Run("hard_and_suppressible_sites", func(t *testing.T) {
 		b := ev.enum(t)
-		cs := hardErrorCases()
+		cs := append(hardErrorCases(), pgCorpusCases()...)
 		for i, c := range cs {
 			if !mine(i) {
 				continue
